@@ -66,7 +66,7 @@ def gen(rng, tier):
             "passes": rng.choice([1, 1, 2]), "end": rng.choice(["exit", "crash", "exit"]), "second_handle": rng.random() < 0.4,
             "abandon": rng.choice([None, None, 0, 1, 2]), "update_after": rng.random() < 0.4,
             "locked_at": rng.choice([None, None, None, 0, 1, 2, 3, 4, 5, 6]),
-            "explicit_dialect": rng.random() < 0.2,
+            "explicit_dialect": rng.random() < 0.2, "failed_update_probe": rng.random() < 0.2,
             # the same process has already built and opened a database of ANOTHER annotation under this very file name
             "prior_tenant": rng.random() < 0.2,
             # another annotation is read by a second iterator at the same time (zip-style), in this schedule
@@ -203,6 +203,9 @@ def run(case):
                     if ur["ok"]:
                         flines = flines + [uline]
                         probes["update_between_import_and_reopen"] = 1
+                if case.get("failed_update_probe") and not case.get("update_after"):
+                    from sim.probes import failed_update_probe
+                    failed_update_probe(w, call, n, "h", "a.db", case["fmt"] == "gtf", V, viol, "C14.db", probes)
                 if case["end"] == "crash":
                     try:
                         call(n, {"op": "gc", "faults": []})
